@@ -17,6 +17,34 @@ PUBLIC = {
 }
 
 
+def attribute_spelling_tables(ctx):
+    """(name, dict) of the serializer's table graph-attribute key -> spelling in the string, and of the parser's table
+    spelling -> graph-attribute key: the module-level constant dicts of those modules whose keys (values) are graph
+    attribute keys and whose values (keys) are strings; found by content, whatever they are called"""
+    if "spelling_tables" in ctx.cache:
+        return ctx.cache["spelling_tables"]
+    repo = ctx.repo
+    ga = repo.module("tucan.graph_attributes")
+    attr_keys = {v for n in ga.assigns for v in [repo.try_const(ga, n, None)] if isinstance(v, str)}
+
+    def find(modname, keys_are_attrs):
+        m = repo.module(modname)
+        hits = []
+        for n in m.assigns:
+            v = repo.try_const(m, n, None)
+            if isinstance(v, dict) and v and all(isinstance(k, str) and isinstance(x, str) for k, x in v.items()):
+                side = set(v) if keys_are_attrs else set(v.values())
+                if side <= attr_keys:
+                    hits.append((n, v))
+        if len(hits) == 1:
+            return hits[0]
+        named = [h for h in hits if "ATTRIBUTE_MAPPING" in h[0]]
+        return named[0] if len(named) == 1 else (None, None)
+    out = (find("tucan.serialization", True), find("tucan.parser.parser", False))
+    ctx.cache["spelling_tables"] = out
+    return out
+
+
 def entry(ctx, key: str) -> FuncInfo:
     return ctx.repo.func(PUBLIC[key])
 
